@@ -33,7 +33,8 @@ enum Edit {
     Write(usize),
     Remove,
 }
-const DOCS: [&str; 4] = [r#"{"as":"ash"}"#, r#"{"as":"asOr","aser":"eser"}"#, r#"{"k":"kOkk"}"#, r#"{"as":"#];
+/// (the last: entries with an empty value and with a value that transliterates to nothing - an empty candidate in both cases)
+const DOCS: [&str; 5] = [r#"{"as":"ash"}"#, r#"{"as":"asOr","aser":"eser"}"#, r#"{"k":"kOkk"}"#, r#"{"as":"#, r#"{"as":"","k":"`","aser":""}"#];
 
 fn t0() -> SystemTime {
     SystemTime::UNIX_EPOCH + Duration::from_secs(1_700_000_000)
@@ -198,7 +199,7 @@ pub fn run(report: &Report, thorough: bool) -> Evidence {
         }
         serde_json::Value::Object(m).to_string()
     };
-    let edits: Vec<Edit> = vec![Edit::None, Edit::Write(0), Edit::Write(1), Edit::Write(2), Edit::Write(3), Edit::Remove];
+    let edits: Vec<Edit> = vec![Edit::None, Edit::Write(0), Edit::Write(1), Edit::Write(2), Edit::Write(3), Edit::Remove, Edit::Write(4)];
     // continuations: words ended by finish, or by a commit (the store written by the live context must equal the one
     // a new context writes)
     let conts: Vec<Vec<(usize, u8)>> = vec![
@@ -420,7 +421,7 @@ pub fn run(report: &Report, thorough: bool) -> Evidence {
     let variant_runs = AtomicU64::new(0);
     {
         let variants = ["As", "AS", "(as)", "Aser.", "as", "k.", "K"];
-        let vedits: Vec<(usize, Edit)> = vec![(0, Edit::Write(1)), (0, Edit::Write(3)), (0, Edit::Remove), (1, Edit::Write(2)), (2, Edit::Write(0)), (1, Edit::Write(3))];
+        let vedits: Vec<(usize, Edit)> = vec![(0, Edit::Write(1)), (0, Edit::Write(3)), (0, Edit::Remove), (1, Edit::Write(2)), (2, Edit::Write(0)), (1, Edit::Write(3)), (0, Edit::Write(4)), (4, Edit::Write(0))];
         par_for(
             vedits.len() * 4,
             1,
